@@ -4,6 +4,7 @@ import CprocVerif.Lemmas.InitParse2
 import CprocVerif.Lemmas.InitRefNoSw
 import CprocVerif.Lemmas.InitRefTopU
 import CprocVerif.Lemmas.InitGeoTop
+import CprocVerif.Lemmas.InitGeoUnb
 import CprocVerif.Lemmas.InitAuto
 
 /-!
@@ -576,24 +577,47 @@ nested later initialiser is an element of an earlier string literal — exactly 
 /-- **laminarity of `parseinit`** (objects of known size).  Hypotheses, all decidable on
 `(t, i)`: `tyWf t`; `layOK t` (a C layout: members inside their struct/union, struct members in
 increasing bit order without overlap, bit-fields inside a storage unit, LP64 sizes of the basic
-types); unions and designators not combined (`noUnion t || noDesig i`); string literals have the
+types); no designator designates a union member other than the first (`desigsOK (subTys t) i`,
+true without unions and without designators); string literals have the
 width of their character type (`strsOK i`); every stored value is a constant of the member's kind
 (`constVals`).  Then the log satisfies the hypotheses of `emitdata_image_ev`. -/
 theorem parseinit_log_laminar {t : Ty} {i : Ini} {st : St} (hm : parseinit t false i = .ok st)
-    (hwf : tyWf t = true) (hlay : layOK t = true) (hmode : (noUnion t || noDesig i) = true)
+    (hwf : tyWf t = true) (hlay : layOK t = true) (hmode : desigsOK (subTys t) i = true)
     (hso : strsOK i = true) (hcv : constVals t false i = true) :
     EvsOK [] st.log ∧ ∀ x ∈ adds st.log, Wf st.top x :=
   parseinit_laminar hm hwf hlay hmode hso hcv
 
 theorem imgClass_parts {t : Ty} {inc : Bool} {i : Ini} (hc : imgClass t inc i = true) :
-    refClass t inc i = true ∧ inc = false ∧ layOK t = true ∧ (noUnion t || noDesig i) = true ∧
+    refClass t inc i = true ∧ (inc = false ∨ incFlat t i = true) ∧ layOK t = true ∧ desigsOK (subTys t) i = true ∧
       strsOK i = true ∧ constVals t inc i = true := by
-  simp only [imgClass, Bool.and_eq_true, Bool.not_eq_true'] at hc
+  simp only [imgClass, Bool.and_eq_true, Bool.or_eq_true, Bool.not_eq_true'] at hc
   exact ⟨hc.1.1.1.1.1, hc.1.1.1.1.2, hc.1.1.1.2, hc.1.1.2, hc.1.2, hc.2⟩
+
+/-- the hypotheses of `emitdata_image_ev` for every pair of `imgClass` -/
+theorem imgClass_laminar {t : Ty} {inc : Bool} {i : Ini} {st : St} (hm : parseinit t inc i = .ok st)
+    (hc : imgClass t inc i = true) : EvsOK [] st.log ∧ ∀ x ∈ adds st.log, Wf st.top x := by
+  obtain ⟨hrc, hinc, hlay, hmode, hso, hcv⟩ := imgClass_parts hc
+  cases inc with
+  | false =>
+    have hwf : tyWf t = true := by
+      simp only [refClass, Bool.and_eq_true] at hrc
+      simpa [tyWfFor] using hrc.1.1
+    exact parseinit_laminar hm hwf hlay hmode hso hcv
+  | true =>
+    have hfl : incFlat t i = true := by
+      rcases hinc with h | h
+      · cases h
+      · exact h
+    unfold incFlat at hfl
+    split at hfl
+    · rename_i s k its
+      exact parseinit_laminar_unb hm (by simpa [layOK] using hlay) hfl hcv
+    · cases hfl
 
 /-- **`static_image_correct`** — the chain `parseinit` → `initadd`/`initclear` → `emitdata` against
 C11 6.7.9, with hypotheses on `(t, inc, i)` only: for every pair in the decidable class `imgClass`
-(`refClass` and the hypotheses of `parseinit_log_laminar`), when `parseinit` succeeds and the
+(`refClass` and the hypotheses of `parseinit_log_laminar`; of the arrays of unknown size those with
+scalar elements and a flat list of expressions, `incFlat`), when `parseinit` succeeds and the
 reference accepts the initialiser, `emitdata` succeeds on the list that `initadd`/`initclear`
 built (no `assert` fails, no "not a constant expression") and the bytes of the emitted data items
 are, byte for byte, the image the reference reading of C11 6.7.9 prescribes. -/
@@ -601,14 +625,9 @@ theorem static_image_correct {t : Ty} {inc : Bool} {i : Ini} {st : St} {r : Init
     (hm : parseinit t inc i = .ok st) (hr : InitRef.ref t inc i = .ok r) (hc : imgClass t inc i = true) :
     (emitdata st.top (st.log.foldl applyEv [])).isSome ∧
       bytes (emitItems st.top (st.log.foldl applyEv [])) = image r.size r.writes := by
-  obtain ⟨hrc, hinc, hlay, hmode, hso, hcv⟩ := imgClass_parts hc
-  subst hinc
-  have hwf : tyWf t = true := by
-    simp only [refClass, Bool.and_eq_true] at hrc
-    simpa [tyWfFor] using hrc.1.1
-  obtain ⟨hok, hw⟩ := parseinit_laminar hm hwf hlay hmode hso hcv
+  obtain ⟨hok, hw⟩ := imgClass_laminar hm hc
   have h1 := emitdata_image_ev hok hw
-  exact ⟨h1.1, by rw [h1.2]; exact (parseinit_refines_ref_class hrc hm hr).2⟩
+  exact ⟨h1.1, by rw [h1.2]; exact (parseinit_refines_ref_class (imgClass_parts hc).1 hm hr).2⟩
 
 -- the non-vacuity examples above are in the class
 example : imgClass exT false exI = true ∧ imgClass exT false exD = true := by decide +kernel
@@ -678,12 +697,7 @@ theorem auto_image_correct {t : Ty} {inc : Bool} {i : Ini} {st : St} {r : InitRe
       funcinit st.top garb (st.log.foldl applyEv []) = bytes (emitItems st.top (st.log.foldl applyEv [])) := by
   simp only [autoClass, hm, Bool.and_eq_true] at hc
   obtain ⟨hic, hflat⟩ := hc
-  obtain ⟨hrc, hinc, hlay, hmode, hso, hcv⟩ := imgClass_parts hic
-  subst hinc
-  have hwf : tyWf t = true := by
-    simp only [refClass, Bool.and_eq_true] at hrc
-    simpa [tyWfFor] using hrc.1.1
-  obtain ⟨hok, hw⟩ := parseinit_laminar hm hwf hlay hmode hso hcv
+  obtain ⟨hok, hw⟩ := imgClass_laminar hm hic
   obtain ⟨_, hmem, hcell⟩ := foldl_applyEv (l := []) hok List.Pairwise.nil (fun _ h => by simp at h)
     (fun _ h => by simp at h)
   have hwl : ∀ x ∈ st.log.foldl applyEv [], Wf st.top x := by
